@@ -37,6 +37,9 @@ TreeBehaviour ==
     [b |-> Behaviour, bare |-> [s \in 1..Len(AllOut) |-> BareOf(s)], selectors |-> SelectorsOf,
      trees |-> [s \in 1..Len(AllOut) |-> TreeOf(s)],
      queries |-> [s \in 1..Len(AllOut) |->
-                    LET ps == SetToSeq(PathsOf(s)) IN [q \in 1..Len(ps) |-> [path |-> ps[q], result |-> Result(TreeOf(s), ps[q])]]]]
+                    LET ps == SetToSeq(PathsOf(s)) IN
+                    [q \in 1..Len(ps) |-> [path |-> ps[q], result |-> Result(TreeOf(s), ps[q]),
+                                           \* the same path evaluated on EVERY subset (a query without '@' selector covers them all)
+                                           every |-> IF Len(AllOut) > 1 THEN [s2 \in 1..Len(AllOut) |-> Result(TreeOf(s2), ps[q])] ELSE <<>>]]]]
 EmitTree == (Finished /\ err = "") => PrintT(ToJson(TreeBehaviour))
 =============================================================================
